@@ -46,6 +46,8 @@ impl Config for MemCfg {
 const WALL_LIMIT: Duration = Duration::from_secs(20);
 /// `--wall-limit-ms N` (measurements only): a shorter watchdog limit
 static WALL_LIMIT_MS: AtomicU64 = AtomicU64::new(0);
+/// requests returned so far (all runs of the process): the watchdog's second progress signal
+static PROGRESS: AtomicU64 = AtomicU64::new(0);
 fn wall_limit() -> Duration { match WALL_LIMIT_MS.load(SeqCst) { 0 => WALL_LIMIT, ms => Duration::from_millis(ms) } }
 const SIG_F6: &str = "F6:tiered-set-lost-insert";
 const SIG_F60: &str = "C02:hang-wide-walk";
@@ -98,6 +100,8 @@ struct Spec {
     tasks: Vec<Vec<u32>>,
     edit: Vec<(u32, i64)>,
     tasks2: Vec<Vec<u32>>,
+    /// read-back round in the SAME epoch as `tasks2`, started after all of them completed (no session in between)
+    tasks3: Vec<Vec<u32>>,
 }
 fn join_u32(v: &[u32]) -> String { v.iter().map(|x| x.to_string()).collect::<Vec<_>>().join(" ") }
 impl Spec {
@@ -109,6 +113,7 @@ impl Spec {
         for t in &self.tasks { s.push_str(&format!("task {}\n", join_u32(t))); }
         s.push_str("edit"); for (k, v) in &self.edit { s.push_str(&format!(" {k} {v}")); } s.push('\n');
         for t in &self.tasks2 { s.push_str(&format!("task2 {}\n", join_u32(t))); }
+        for t in &self.tasks3 { s.push_str(&format!("task3 {}\n", join_u32(t))); }
         s
     }
     fn parse(text: &str) -> Spec {
@@ -126,6 +131,7 @@ impl Spec {
                 "task" => sp.tasks.push(keys(&t[1..])),
                 "edit" => sp.edit = pairs(&t[1..]),
                 "task2" => sp.tasks2.push(keys(&t[1..])),
+                "task3" => sp.tasks3.push(keys(&t[1..])),
                 _ => {}
             }
         }
@@ -186,7 +192,7 @@ fn finish_spec(r: &mut Rng, fam: &str, program: Program, many_tasks: bool) -> Sp
     let m2 = if many_tasks { r.range(4, 16) } else { r.range(2, 12) } as usize;
     let tasks2 = gen_tasks(r, &program, m2, 4, true);
     let seq = if r.chance(1, 4) { vec![r.below(program.nodes.len() as u64) as u32] } else { vec![] };
-    Spec { fam: fam.into(), w: pick_w(r, false), program, init, seq, tasks, edit, tasks2 }
+    Spec { fam: fam.into(), w: pick_w(r, false), program, init, seq, tasks, edit, tasks2, tasks3: vec![] }
 }
 
 /// FAN-IN: Var(0) -> optional chain -> callee c; n callers N_i = Read(c) + 1000*i.  A prefix of callers is
@@ -218,7 +224,7 @@ fn gen_fanin(r: &mut Rng, max_n: u64) -> Spec {
     for (i, k) in all.iter().enumerate() { tasks2[i % m2].push(*k); }
     for _ in 0..r.below(4) { let j = r.below(m2 as u64) as usize; tasks2[j].push(*r.pick(&callers)); }
     tasks2.retain(|t| !t.is_empty());
-    Spec { fam: "fanin".into(), w: pick_w(r, true), program, init: vec![(0, 1)], seq, tasks, edit: vec![(0, 2)], tasks2 }
+    Spec { fam: "fanin".into(), w: pick_w(r, true), program, init: vec![(0, 1)], seq, tasks, edit: vec![(0, 2)], tasks2, tasks3: vec![] }
 }
 
 /// WIDE FAN-IN WITH DROPPERS (finding F60).  Key 0 is a selector input.  Per group: an input `v`, a firewall
@@ -233,8 +239,13 @@ fn gen_fanin(r: &mut Rng, max_n: u64) -> Spec {
 fn yields(m: u64, e: Expr) -> Expr { let mut e = e; for _ in 0..m { e = Expr::Yield(Box::new(e)); } e }
 fn add(a: Expr, b: Expr) -> Expr { Expr::Add(Box::new(a), Box::new(b)) }
 
-fn gen_fandrop(r: &mut Rng) -> Spec {
-    let groups = r.range(1, 3) as i64;
+/// `rb` = the READ-BACK sub-family (seeded change "per-next() re-locking of the small tier"): 3-6 groups, small tier only,
+/// 3-8 droppers per group that sit at the LOW indices of the edge vector (queried first in round 1) and, once the selector
+/// has changed, read a helper the firewall reads too and publish 0-5 yields after it is published (i.e. while the steady
+/// request's repair of the firewall walks the set), true
+/// multi-thread runtimes, and a third round in the same epoch that reads EVERY caller back.
+fn gen_fandrop(r: &mut Rng, rb: bool) -> Spec {
+    let groups = if rb { r.range(3, 6) } else { r.range(1, 3) } as i64;
     let mut nodes = vec![NodeDef { kind: Kind::Input, default: 0, expr: Expr::Const(0) }];
     let (mut init, mut edit) = (vec![(0u32, 1i64)], vec![(0u32, 0i64)]);
     let mut round1: Vec<u32> = vec![];
@@ -243,17 +254,22 @@ fn gen_fandrop(r: &mut Rng) -> Spec {
     for g in 0..groups {
         let v = nodes.len() as u32; nodes.push(NodeDef { kind: Kind::Input, default: 0, expr: Expr::Const(0) });
         init.push((v, 10 + g)); if r.chance(9, 10) { edit.push((v, 20 + g)); }
+        // rb: a helper `h` that the firewall reads and that the droppers start to read once the selector changes: whoever
+        // computes `h` first (it yields 2-12 times, so the others queue up on its computing entry), its publication precedes the end of the firewall's executor (= the start of the walk) by a
+        // few microseconds AND releases the droppers, whose own publications (removal of their edge) follow at once
+        let h = if rb { nodes.push(NodeDef { kind: Kind::Normal, default: DEFAULT_NM, expr: { let j = r.range(2, 12); yields(j, Expr::Read(v)) } }); Some(nodes.len() as u32 - 1) } else { None };
+        let src = h.unwrap_or(v);
         let f = nodes.len() as u32;
-        nodes.push(NodeDef { kind: Kind::Firewall, default: DEFAULT_FW, expr: if r.chance(1, 2) { Expr::Read(v) } else { add(Expr::Read(v), Expr::Const(7)) } });
-        let c = match r.below(5) {
+        nodes.push(NodeDef { kind: Kind::Firewall, default: DEFAULT_FW, expr: if r.chance(1, 2) { Expr::Read(src) } else { add(Expr::Read(src), Expr::Const(7)) } });
+        let c = match if rb { r.below(4) + if r.chance(1, 2) { 0 } else { 1 } } else { r.below(5) } {
             0 | 1 | 2 => f,
             3 => { nodes.push(NodeDef { kind: Kind::Projection, default: DEFAULT_PJ, expr: if r.chance(1, 2) { Expr::Read(f) } else { add(Expr::Read(f), Expr::Const(1)) } }); nodes.len() as u32 - 1 }
             _ => { nodes.push(NodeDef { kind: Kind::Normal, default: DEFAULT_NM, expr: add(Expr::Read(f), Expr::Const(3)) }); nodes.len() as u32 - 1 }
         };
         // 32 = the full small tier: the only width at which the Vec-backed walk parks twice (16th and 32nd edge); a
         // current_thread runtime wakes parked tasks last-in-first-out, so only the second parking meets a dropper
-        let n = match r.below(6) { 0 => 32, 1 | 2 | 3 => r.range(16, 31), _ => r.range(33, 40) };
-        let d = r.range(1, 8).min(n - 1);
+        let n = if rb { r.range(10, 32) } else { match r.below(6) { 0 => 32, 1 | 2 | 3 => r.range(16, 31), _ => r.range(33, 40) } };
+        let d = if rb { r.range(3, 8) } else { r.range(1, 8).min(n - 1) };
         let a = if r.chance(1, 3) { r.range(1, 2) } else { 0 };
         let mut group_callers: Vec<u32> = vec![];
         let mut steadies: Vec<u32> = vec![];
@@ -261,17 +277,17 @@ fn gen_fandrop(r: &mut Rng) -> Spec {
             steadies.push(nodes.len() as u32);
             nodes.push(NodeDef { kind: Kind::Normal, default: DEFAULT_NM, expr: add(Expr::Read(c), Expr::Const(1000 * (j as i64 + 1))) });
         }
-        group_callers.extend(&steadies);
         let mut movers: Vec<u32> = vec![];
         for k in 0..(d + a) {
-            let m = match r.below(20) { 0..=8 => 0, 9..=13 => 1, _ => r.range(2, 4) };
+            let m = if rb { r.below(4) } else { match r.below(20) { 0..=8 => 0, 9..=13 => 1, _ => r.range(2, 4) } };
             let reads = add(Expr::Read(c), Expr::Const(k as i64));
-            let quits = yields(m, Expr::Const(-1 - k as i64));
+            let quits = match h { Some(h) if r.chance(5, 6) => add(Expr::Read(h), yields(m, Expr::Const(-1 - k as i64))), _ => yields(m, Expr::Const(-1 - k as i64)) };
             let (on1, off1) = if k < d { (reads, quits) } else { (quits, yields(m, add(Expr::Read(c), Expr::Const(50 + k as i64)))) };
             movers.push(nodes.len() as u32);
             nodes.push(NodeDef { kind: Kind::Normal, default: DEFAULT_NM, expr: Expr::IfEq(Box::new(Expr::Read(0)), 1, Box::new(on1), Box::new(off1)) });
         }
-        group_callers.extend(&movers);
+        // order of the edges in the vector = order of the round-1 queries
+        if rb && r.chance(2, 3) { group_callers.extend(&movers); group_callers.extend(&steadies); } else { group_callers.extend(&steadies); group_callers.extend(&movers); if rb { r.shuffle(&mut group_callers); } }
         round1.extend(&group_callers); sweep.extend(&group_callers);
         // second epoch: the steady representative(s) and one request per mover
         lead.push(vec![steadies[0]]);
@@ -281,17 +297,19 @@ fn gen_fandrop(r: &mut Rng) -> Spec {
             else { others.push(vec![mv]); }
         }
     }
-    r.shuffle(&mut round1);
-    let (seq, tasks) = if r.chance(2, 3) { (round1, vec![]) } else {
+    if !rb { r.shuffle(&mut round1); }
+    let (seq, tasks) = if rb || r.chance(2, 3) { (round1, vec![]) } else {
         let m = r.range(2, 8) as usize; let mut ts = vec![vec![]; m];
         for (i, k) in round1.iter().enumerate() { ts[i % m].push(*k); }
         (vec![], ts)
     };
     // order of the spawns: the steady requests first (they reach the walk while the movers are still queued), or anywhere
     let mut tasks2 = if r.chance(1, 2) { r.shuffle(&mut others); lead.extend(others); lead } else { lead.extend(others); r.shuffle(&mut lead); lead };
-    if r.chance(1, 2) { r.shuffle(&mut sweep); tasks2.push(sweep); }
-    let w = *r.pick(&[0usize, 0, 1, 1, 2, 2, 2, 4, 4, 3, 8]);
-    Spec { fam: FAM_WALK.into(), w, program: Program { nodes }, init, seq, tasks, edit, tasks2 }
+    let mut tasks3 = vec![];
+    if rb { let m = r.range(1, 4) as usize; tasks3 = vec![vec![]; m]; r.shuffle(&mut sweep); for (i, k) in sweep.iter().enumerate() { tasks3[i % m].push(*k); } }
+    else if r.chance(1, 2) { r.shuffle(&mut sweep); tasks2.push(sweep); }
+    let w = if rb { *r.pick(&[2usize, 2, 3, 4, 4, 8]) } else { *r.pick(&[0usize, 0, 1, 1, 2, 2, 2, 4, 4, 3, 8]) };
+    Spec { fam: FAM_WALK.into(), w, program: Program { nodes }, init, seq, tasks, edit, tasks2, tasks3 }
 }
 
 /// WIDE: layered program, each node reads 1-3 lower nodes, unordered groups with many keys, aggregator roots.
@@ -366,7 +384,7 @@ impl Sink for TraceSink {
 // ------------------------------------------------------------------------------------------
 
 #[derive(Default, Clone)]
-struct RunOut { r1: Vec<(u32, i64)>, r2: Vec<(u32, i64)>, log1: Vec<ExecRecord>, log2: Vec<ExecRecord>, overlap: Vec<u32>, boundary: u64, panic: Option<String> }
+struct RunOut { r1: Vec<(u32, i64)>, r2: Vec<(u32, i64)>, r3: Vec<(u32, i64)>, log1: Vec<ExecRecord>, log2: Vec<ExecRecord>, overlap: Vec<u32>, boundary: u64, panic: Option<String> }
 enum RunErr { Hang }
 
 fn panic_msg(p: Box<dyn std::any::Any + Send>) -> String { p.downcast_ref::<String>().cloned().or_else(|| p.downcast_ref::<&str>().map(|s| s.to_string())).unwrap_or_else(|| "<non-string payload>".into()) }
@@ -375,7 +393,7 @@ async fn do_round(engine: &Arc<Engine<MemCfg>>, sh: &Arc<Shared>, seq: &[u32], t
     let mut out = vec![];
     if !seq.is_empty() {
         let te = engine.clone().tracked().await;
-        for k in seq { out.push((*k, query_key(sh, &te, *k).await)); }
+        for k in seq { out.push((*k, query_key(sh, &te, *k).await)); PROGRESS.fetch_add(1, SeqCst); }
         drop(te);
     }
     let mut js = tokio::task::JoinSet::new();
@@ -384,7 +402,7 @@ async fn do_round(engine: &Arc<Engine<MemCfg>>, sh: &Arc<Shared>, seq: &[u32], t
         js.spawn(async move {
             let te = e.tracked().await;
             let mut o = Vec::with_capacity(roots.len());
-            for k in roots { o.push((k, query_key(&sh, &te, k).await)); }
+            for k in roots { o.push((k, query_key(&sh, &te, k).await)); PROGRESS.fetch_add(1, SeqCst); }
             drop(te);
             o
         });
@@ -395,7 +413,7 @@ async fn do_round(engine: &Arc<Engine<MemCfg>>, sh: &Arc<Shared>, seq: &[u32], t
     out
 }
 
-fn run_spec_inner(spec: &Spec, sink: Option<Arc<TraceSink>>) -> RunOut {
+fn run_spec_inner(spec: &Spec, sink: Option<Arc<TraceSink>>, sh: Arc<Shared>) -> RunOut {
     // w = 0: a current_thread runtime (the thread of this function is the only one that polls tasks)
     let rt = if spec.w == 0 { tokio::runtime::Builder::new_current_thread().enable_all().build().unwrap() }
         else { tokio::runtime::Builder::new_multi_thread().worker_threads(spec.w).thread_stack_size(64 << 20).enable_all().build().unwrap() };
@@ -404,7 +422,6 @@ fn run_spec_inner(spec: &Spec, sink: Option<Arc<TraceSink>>) -> RunOut {
         rt.block_on(async move {
             let spec = spec2;
             let mut ro = RunOut::default();
-            let sh = Arc::new(Shared::default());
             *sh.program.write().unwrap() = spec.program.clone();
             let mut engine = Engine::<MemCfg>::new_with(Plugin::default(), InMemoryStorageEngineFactory, SeededStableHasherBuilder::new(0)).await.unwrap();
             register_all(&mut engine, &sh);
@@ -418,6 +435,7 @@ fn run_spec_inner(spec: &Spec, sink: Option<Arc<TraceSink>>) -> RunOut {
                 if let Some(s) = &sink { ro.boundary = s.seq.load(SeqCst); s.boundary.store(ro.boundary, SeqCst); }
                 { let mut s = engine.input_session().await; for (k, v) in &spec.edit { s.set_input(In(*k), *v).await; } s.commit().await; }
                 ro.r2 = do_round(&engine, &sh, &[], &spec.tasks2, &mut panic).await;
+                if panic.is_none() && !spec.tasks3.is_empty() { ro.r3 = do_round(&engine, &sh, &[], &spec.tasks3, &mut panic).await; }
                 ro.log2 = std::mem::take(&mut *sh.log.lock().unwrap());
             }
             ro.overlap = sh.overlap.lock().unwrap().clone();
@@ -436,10 +454,26 @@ fn run_spec(spec: &Spec, sink: Option<Arc<TraceSink>>) -> Result<RunOut, RunErr>
     let (tx, rx) = std::sync::mpsc::channel();
     let spec2 = spec.clone();
     let s2 = sink.clone();
-    let _ = std::thread::Builder::new().stack_size(64 << 20).spawn(move || { let r = run_spec_inner(&spec2, s2); let _ = tx.send(r); });
-    let r = rx.recv_timeout(wall_limit());
+    let sh = Arc::new(Shared::default());
+    let sh2 = sh.clone();
+    let _ = std::thread::Builder::new().stack_size(64 << 20).spawn(move || { let r = run_spec_inner(&spec2, s2, sh2); let _ = tx.send(r); });
+    // the limit applies to the time WITHOUT PROGRESS (no executor invocation finished, no request returned): a hung
+    // run makes none, a run on an overloaded machine keeps making some; 12 limits in total is a hang whatever happens
+    let t0 = Instant::now();
+    let progress = || sh.log.lock().map(|l| l.len() as u64).unwrap_or(0).wrapping_mul(1_000_003) ^ PROGRESS.load(SeqCst);
+    let mut last = (progress(), Instant::now());
+    let r = loop {
+        match rx.recv_timeout(Duration::from_millis(100)) {
+            Ok(r) => break Ok(r),
+            Err(std::sync::mpsc::RecvTimeoutError::Disconnected) => break Err(RunErr::Hang),
+            Err(std::sync::mpsc::RecvTimeoutError::Timeout) => {}
+        }
+        let p = progress();
+        if p != last.0 { last = (p, Instant::now()); }
+        if last.1.elapsed() > wall_limit() || t0.elapsed() > wall_limit() * 12 { break Err(RunErr::Hang); }
+    };
     if sink.is_some() { verif::set_sink(None); }
-    r.map_err(|_| RunErr::Hang)
+    r
 }
 
 // ------------------------------------------------------------------------------------------
@@ -498,6 +532,13 @@ fn judge_run(spec: &Spec, ro: &RunOut) -> Verdict {
                 break;
             }
         }
+        // read-back in the same epoch: a caller the dirty walk skipped keeps its old value although its callee is settled
+        let stale3: Vec<(u32, i64, i64)> = ro.r3.iter().filter_map(|(k, v)| { let exp = s2.value(*k).unwrap(); if *v != exp { Some((*k, *v, exp)) } else { None } }).collect();
+        if let Some((k, v, exp)) = stale3.first() {
+            let reads: Vec<u32> = reads1.get(k).cloned().unwrap_or_default();
+            let via: Vec<String> = reads.iter().filter(|c| s1.value(**c).unwrap() != s2.value(**c).unwrap()).map(|c| format!("callee {c} changed and has {} distinct callers", callers.get(c).map_or(0, |s| s.len()))).collect();
+            fails.push(("C02:stale-readback-same-epoch".into(), format!("read-back after the concurrent requests of the epoch after edit {:?} had completed: query {k} returned {v}, from-scratch value is {exp} ({} of {} read-back values stale: {:?}); {k} was executed in round 1 and not re-executed; {}", spec.edit, stale3.len(), ro.r3.len(), stale3.iter().take(8).collect::<Vec<_>>(), via.join("; "))));
+        }
         for (name, log) in [("round 1", &ro.log1), ("round 2", &ro.log2)] {
             let mut cnt: BTreeMap<u32, u32> = BTreeMap::new();
             // an invocation with result None was cancelled (repair aborts the other members of an unordered group
@@ -531,8 +572,8 @@ fn eval_spec(ctx: &mut Ctx, spec: &Spec, sink: Option<Arc<TraceSink>>, tag: &str
     match run_spec(spec, sink) {
         Err(RunErr::Hang) => {
             ctx.inc(&format!("{tag}_hangs_workers_{:02}", spec.w), 1);
-            let what = if spec.fam == FAM_WALK { " — a request of the epoch after the edit never completed: the walk over a wide backward-edge set was parked holding the set's read guards while a caller that drops/adds its edge blocked its worker thread in write() (finding F60)" } else { "" };
-            ctx.fail(spec.hang_sig(), format!("the run did not finish within {} ms of wall time (fam {}, {} workers{}){what}", wall_limit().as_millis(), spec.fam, spec.w, if spec.w == 0 { " = current_thread runtime" } else { "" }), &text); None
+            let what = if spec.fam == FAM_WALK { " — a request never completed; in this family that is how finding F60 shows (a walk over a wide backward-edge set parked holding the set's read guards while a caller that drops/adds its edge blocks its worker thread in write()), but any lost wake-up ends the same way" } else { "" };
+            ctx.fail(spec.hang_sig(), format!("the run made no progress (no executor finished, no request returned) for {} ms of wall time (fam {}, {} workers{}){what}", wall_limit().as_millis(), spec.fam, spec.w, if spec.w == 0 { " = current_thread runtime" } else { "" }), &text); None
         }
         Ok(ro) => {
             let v = judge_run(spec, &ro);
@@ -593,7 +634,7 @@ fn mode_walk(ctx: &mut Ctx, r: &mut Rng, n: u64, reps: u64, keep_going: bool) {
             for _ in 0..reps { specs.push((sp.clone(), "walkcorpus")); for w in [0usize, 1, 2, 4] { if w != sp.w { let mut s2 = sp.clone(); s2.w = w; specs.push((s2, "walkcorpus")); } } }
         }
     }
-    for _ in 0..n { specs.push((gen_fandrop(r), "walk")); }
+    for i in 0..n { if i % 2 == 0 { specs.push((gen_fandrop(r, false), "walk")); } else { specs.push((gen_fandrop(r, true), "walkrb")); } }
     for (spec, tag) in &specs {
         eval_spec(ctx, spec, None, tag);
         if hung(ctx) > 0 && !keep_going { ctx.inc("walk_mode_stopped_after_hang", 1); break; }
@@ -781,6 +822,32 @@ fn gen_hist(r: &mut Rng) -> Hist {
     Hist { prefill, threads }
 }
 
+/// ITERATION vs REMOVALS on the SMALL tier (seeded change "per-next() re-locking"): `prefill` <= 32 elements; the
+/// upper part is never touched (present during every iteration); 1-4 remover threads each own a slice of the LOW
+/// indices and remove / re-insert their elements in a tight loop (`swap_remove` moves the last element into the
+/// hole; a re-insert appends: the length never exceeds `prefill`); 1-3 threads iterate repeatedly.  An iterator
+/// that does not hold the vector guard for its whole life misses a never-removed element (moved into a slot it
+/// has passed) or yields a re-inserted one twice.
+fn gen_hist_walkrem(r: &mut Rng) -> Hist {
+    let prefill = *r.pick(&[8u64, 12, 16, 20, 24, 28, 30, 31, 32, 32]) as u32;
+    let n_rem = r.range(1, 4) as usize;
+    let n_it = r.range(1, (8 - n_rem as u64).min(3)) as usize;
+    let low = (prefill / 2).max(n_rem as u32);   // elements 0..low may be removed, low..prefill stay
+    let mut threads = vec![];
+    for t in 0..n_rem {
+        let own: Vec<u32> = (0..low).filter(|x| *x as usize % n_rem == t).collect();
+        let mut ops = vec![]; let mut out: Vec<u32> = vec![];
+        for _ in 0..r.range(8, 40) {
+            if !out.is_empty() && (out.len() == own.len() || r.chance(1, 2)) { let i = r.below(out.len() as u64) as usize; ops.push(TOp::Ins(out.swap_remove(i))); }
+            else { let cand: Vec<u32> = own.iter().copied().filter(|x| !out.contains(x)).collect(); if cand.is_empty() { continue; } let x = *r.pick(&cand); out.push(x); ops.push(TOp::Rem(x)); }
+        }
+        threads.push(ops);
+    }
+    for _ in 0..n_it { let n = r.range(6, 30); threads.push((0..n).map(|_| if r.chance(1, 12) { TOp::Len } else { TOp::Iter }).collect()); }
+    r.shuffle(&mut threads);
+    Hist { prefill, threads }
+}
+
 struct HistOut { recs: Vec<Rec>, final_items: Vec<u32>, final_len: usize, large_before: bool, large_after: bool }
 
 /// persistent worker threads for the concurrent histories (spawning per history costs more than the history)
@@ -870,14 +937,14 @@ fn judge_hist(h: &Hist, o: &HistOut) -> Option<(&'static str, String)> {
     for x in &fin { if !per.contains_key(x) { return Some(("other", format!("element {x} appears at the end but was never inserted"))); } }
     for it in o.recs.iter().filter(|r| r.op == TOp::Iter) {
         let got: BTreeSet<u32> = it.items.iter().copied().collect();
-        if got.len() != it.items.len() { return Some(("other", format!("iteration by thread {} yields duplicates", it.t))); }
+        if got.len() != it.items.len() { let mut d = it.items.clone(); d.sort(); let dup = d.windows(2).find(|w| w[0] == w[1]).map(|w| w[0]); return Some(("iter-dup", format!("iteration by thread {} (ticks {}..{}) yields element {dup:?} twice: {:?}", it.t, it.inv, it.ret, it.items))); }
         for (x, ops) in &per {
             let pre = *x < h.prefill;
             // establishing points: prefill (time 0) or an insert that returned before the iteration started
             let mut est: Vec<u64> = vec![]; if pre { est.push(0); }
             for r in ops.iter() { if matches!(r.op, TOp::Ins(_)) && r.ret < it.inv { est.push(r.inv); } }
             let must = est.iter().any(|e| !ops.iter().any(|r| matches!(r.op, TOp::Rem(_)) && r.ret > *e && r.inv < it.ret));
-            if must && !got.contains(x) { return Some(("missing", format!("iteration by thread {} (ticks {}..{}) misses element {x}, which was inserted before the iteration began and is not removed by any overlapping or later remove", it.t, it.inv, it.ret))); }
+            if must && !got.contains(x) { return Some(("iter-missing", format!("iteration by thread {} (ticks {}..{}) misses element {x}, which was inserted before the iteration began and is not removed by any overlapping or later remove", it.t, it.inv, it.ret))); }
             let may = pre || ops.iter().any(|r| matches!(r.op, TOp::Ins(_)) && r.b && r.inv < it.ret);
             if !may && got.contains(x) { return Some(("other", format!("iteration by thread {} contains element {x}, which no insert invoked before the iteration returned had added", it.t))); }
         }
@@ -895,10 +962,15 @@ fn eval_hist(ctx: &mut Ctx, h: &Hist) -> bool {
     ctx.inc(&format!("tset_hist_threads_{}", h.threads.len()), 1);
     ctx.inc("tset_conc_ops", o.recs.len() as u64);
     if crossed { ctx.inc("tset_histories_crossing_threshold", 1); }
+    let has = |f: fn(&TOp) -> bool| h.threads.iter().filter(|t| t.iter().any(f)).count();
+    let iter_vs_rem = !o.large_before && !o.large_after && has(|o| matches!(o, TOp::Iter)) >= 1 && has(|o| matches!(o, TOp::Rem(_))) >= 1 && h.threads.len() >= 2;
+    if iter_vs_rem { ctx.inc("tset_histories_small_iter_vs_remove", 1); ctx.inc("tset_small_iterations_beside_removers", o.recs.iter().filter(|r| r.op == TOp::Iter).count() as u64); }
+    let touches = touches || (iter_vs_rem && h.prefill >= 8);
     let text = h.render();
     if h.threads.len() >= 2 && touches { ctx.distinct.insert(hash_text(&text)); if ctx.samples.len() < 3 && crossed { ctx.samples.push(text.clone()); } }
     if let Some((kind, desc)) = judge_hist(h, &o) {
-        let sig = if kind == "missing" && crossed { SIG_F6 } else { "C02:tset-lin" };
+        let sig = if (kind == "missing" || kind == "iter-missing") && crossed { SIG_F6 }
+            else if kind == "iter-missing" { "C02:tset-iter-misses-present" } else if kind == "iter-dup" { "C02:tset-iter-duplicate" } else { "C02:tset-lin" };
         let mut d = format!("{desc} [crossed threshold during the concurrent phase: {crossed}]; records:");
         let mut recs = o.recs.clone(); recs.sort_by_key(|r| r.inv);
         for r in recs.iter().take(60) { d.push_str(&format!(" t{}:{:?}@{}..{}={}", r.t, r.op, r.inv, r.ret, if matches!(r.op, TOp::Iter | TOp::Len) { format!("{:?}", r.items) } else { r.b.to_string() })); }
@@ -913,7 +985,7 @@ fn mode_tset(ctx: &mut Ctx, out: &mut Out, r: &mut Rng, n_seq: u64, n_hist: u64)
     let fixed = match ctx.variant_fixed { Some(b) => b, None => { let b = f6_forced().present; ctx.variant_fixed = Some(b); b } };
     let variant = if fixed { "fixed" } else { "asis" };
     for _ in 0..n_seq { tset_seq(ctx, out, r, variant); }
-    for _ in 0..n_hist { let h = gen_hist(r); eval_hist(ctx, &h); }
+    for i in 0..n_hist { let h = if i % 3 == 2 { gen_hist_walkrem(r) } else { gen_hist(r) }; eval_hist(ctx, &h); }
     ctx.inc("wall_ms_tset", t0.elapsed().as_millis() as u64);
 }
 
@@ -1043,7 +1115,7 @@ fn main() {
     let n_trace = flag("--n-trace").and_then(|x| x.parse().ok()).unwrap_or((n / 2).max(1));
     let n_seq = flag("--n-seq").and_then(|x| x.parse().ok()).unwrap_or((n / 2).max(1));
     let n_hist = flag("--n-hist").and_then(|x| x.parse().ok()).unwrap_or(n * 8);
-    let n_walk = flag("--n-walk").and_then(|x| x.parse().ok()).unwrap_or(if thorough { 1500 } else { 120 });
+    let n_walk = flag("--n-walk").and_then(|x| x.parse().ok()).unwrap_or(if thorough { 1500 } else { 140 });
     let walk_reps = if thorough { 15 } else { 3 };
     let keep_going = a.rest.iter().any(|x| x == "--walk-keep-going");
     if let Some(ms) = flag("--wall-limit-ms").and_then(|x| x.parse().ok()) { WALL_LIMIT_MS.store(ms, SeqCst); }
@@ -1073,7 +1145,7 @@ fn main() {
     for (k, v) in &ctx.maxes { dist.push(format!("{}:{v}", jstr(k))); }
     dist.push(format!("\"mode\":{}", jstr(&mode)));
     dist.push(format!("\"tset_variant\":{}", jstr(match ctx.variant_fixed { Some(true) => "fixed", Some(false) => "asis", None => "n/a" })));
-    let rule = "engine/trace runs: program families gen (gen_program, normal+input nodes), fw (with firewalls/projections; overlap/hang/panic verdicts only), fanin (1 input, optional chain, 1..200 callers of one callee, biased 28..40 around the 32-element tier threshold; sequential prefix then concurrent rest), wide (layered, up to 600/3000 keys, unordered groups up to 40 keys, aggregator roots), fandrop (mode walk, finding F60: 1-3 groups of a firewall — or a projection / normal node over it — with 16..40 callers of which 1-8 drop and 0-2 add their edge after the edit, requested through fresh roots or directly, one task each, on 0 = current_thread / 1 / 2 / 3 / 4 / 8 workers; corpus/C02-F60 first; non-trivial = fan-in >= 16, the edit changes a caller's value, >= 2 tasks in the second epoch) x 2..16 tokio workers x round 1 (M tasks with overlapping roots) / one input edit / round 2 (all keys); non-trivial = at least 2 round-1 tasks request a common non-input key (as a root or through the dependencies of their roots) and the edit changes the from-scratch value of some round-1 root; tset sequences: non-trivial = crosses the threshold; tset histories: non-trivial = at least 2 threads and the history starts within 28..33 elements, ends at >= 28 or crosses the threshold; distinct by hash of the case text";
+    let rule = "engine/trace runs: program families gen (gen_program, normal+input nodes), fw (with firewalls/projections; overlap/hang/panic verdicts only), fanin (1 input, optional chain, 1..200 callers of one callee, biased 28..40 around the 32-element tier threshold; sequential prefix then concurrent rest), wide (layered, up to 600/3000 keys, unordered groups up to 40 keys, aggregator roots), fandrop (mode walk, finding F60: 1-3 groups of a firewall — or a projection / normal node over it — with 16..40 callers of which 1-8 drop and 0-2 add their edge after the edit, requested through fresh roots or directly, one task each, on 0 = current_thread / 1 / 2 / 3 / 4 / 8 workers; corpus/C02-F60 first; non-trivial = fan-in >= 16, the edit changes a caller's value, >= 2 tasks in the second epoch) x 2..16 tokio workers x round 1 (M tasks with overlapping roots) / one input edit / round 2 (all keys); non-trivial = at least 2 round-1 tasks request a common non-input key (as a root or through the dependencies of their roots) and the edit changes the from-scratch value of some round-1 root; tset sequences: non-trivial = crosses the threshold; tset histories: every third one is `walkrem` (small tier, prefill 8..32, 1-4 remover threads removing/re-inserting LOW-index elements in a loop, 1-3 threads iterating 6-30 times, the upper half never touched: an iteration must contain every element present during its whole interval, once); non-trivial = at least 2 threads and the history starts within 28..33 elements, ends at >= 28, crosses the threshold, or iterates beside removers on the small tier; distinct by hash of the case text";
     let mut rep = String::from("{");
     rep.push_str(&format!("\"evaluations\":{},\"distinct_nontrivial\":{},", ctx.evals, ctx.distinct.len()));
     rep.push_str(&format!("\"rule\":{},", jstr(rule)));
